@@ -35,7 +35,7 @@ CLAIMED = {
              note='decoration invariance follows because the oracle reads the digit sequence only and every event is judged against it; acceptance of lines that are not valid UTF-8 is left open (DESIGN 3.4)', ref='5 C02'),
  'C03': dict(text='per-event TLC validation that the set of changed / created rows is within {Address(frame)} for shuffled frames of all nine formats among other aircraft, address 0 dropped, row.icao = key, get_icao = oracle; plus the AP/AA field swept over 2^24 values per format through the public get_icao and judged by TLC in run-length form (thorough: all values, quick: every 61st).',
              note='oracle Address() = AA field or syndrome of the whole frame (nibble-table CRC cross-checked against the bit-serial definition in Vectors.tla); the run-length reduction in the harness is a semantics-free transform but trusted code', ref='5 C03'),
- 'C04': dict(text='per-event TLC validation that a DF11/17/18 frame whose syndrome (computed by the TLA+ CRC) is non-zero (DF11: upper 17 bits) leaves the whole table unchanged: all 1-bit, all/sampled 2-bit and random heavier errors on several valid squitters, on empty and populated tables; all burst patterns up to 12 (quick) / 24 (thorough) bits through get_message, accepted variants listed and re-judged by TLC.',
+ 'C04': dict(text='per-event TLC validation that a DF11/17/18 frame whose syndrome (computed by the TLA+ CRC) is non-zero (DF11: upper 17 bits) leaves the whole table unchanged: all 1-bit, all/sampled 2-bit and random heavier errors on several valid squitters, on empty and populated tables; all burst patterns up to 12 (quick) / 22 (thorough) bits through get_message, accepted variants listed and re-judged by TLC.',
              note='burst sweep uses get_message (the gate) directly; the table-level effect is checked per event for the 1-/2-bit and random patterns', ref='5 C04'),
  'C05': dict(text='TLC validates, per event, that the altitude of the row after every fed DF4/DF20/TC9-18 frame is what the TLA+ oracle (Alt13/Alt12/Gillham, independently validated by Vectors.tla) computes from that frame; quick: stratified codes, thorough: all 8192 AC13 x DF4/DF20 and all 4096 AC12 x TC9..18, update and first-frame contexts, option sets.',
              note='oracle = spec/ModeS.tla (self-checked: Q=1 round trip over all codes, Gillham bijection onto -1200..126700 ft with Gray property); harness projection of Plane.altitude; M=1 codes unconstrained', ref='5 C05'),
